@@ -17,7 +17,7 @@ from ..ref import irwf
 
 PROPERTY = "C14"
 TECHNIQUE = "structural + dataflow invariant checker on the live IR at every pass boundary and after linking; dynamic def-before-use monitor in the VM hook"
-LEVEL_TEXT = ("For every program of the workload (directed families of C01-C04, forwarding templates, seeded random scalar / vector / "
+LEVEL_TEXT = ("For every program of the workload (directed families of C01-C04, forwarding templates, statement patterns the optimiser rewrites placed behind break / continue / return, multi-module programs linked through a fresh and through the linker's default loader, seeded random scalar / vector / "
               "call-graph programs) and both optimisation settings, the live IR is checked after lowering and after every IR pass, "
               "and the linked program once more (call targets and arity); a finding is attributed to the first pass after which it "
               "appears. The programs are also executed with the observer checking that every operand read is defined.")
